@@ -9,10 +9,10 @@ import vcheck as V
 print(V.build_schedmc())" 2>/dev/null | tail -1)
 T=$(mktemp -d /var/tmp/engsan.XXXXXX); trap 'rm -rf $T' EXIT
 bad=0
-for sc in c20.L3.two-registrations-vs-close c20.L5.old-listener-vs-late-registration-vs-close c06.N7.sibling-delivery c19.S5.channels-reached-vs-close; do
- for fine in "" "-fine"; do
-  for sh in 0 1 2 3; do $B explore $fine -prop ${sc:0:3} -scenario $sc -tier quick -shard $sh -nshards 4 -out $T/s_$sh.json & done
-  $B explore $fine -prop ${sc:0:3} -scenario $sc -tier quick -shard 0 -nshards 1 -out $T/s_all.json; wait
+for item in c20.L3.two-registrations-vs-close: c20.L5.old-listener-vs-late-registration-vs-close: c06.N7.sibling-delivery: c06.N7.sibling-delivery:-fine c19.S5.channels-reached-vs-close:; do
+ sc=${item%%:*}; for fine in "${item#*:}"; do
+  for sh in 0 1 2 3; do $B explore $fine -scenario $sc -tier quick -shard $sh -nshards 4 -out $T/s_$sh.json & done
+  $B explore $fine -scenario $sc -tier quick -shard 0 -nshards 1 -out $T/s_all.json; wait
   python3 - $T "$sc$fine" <<'PY' || bad=1
 import json,sys
 t,name=sys.argv[1],sys.argv[2]
